@@ -78,7 +78,7 @@ func scenC02(e *Env) func() {
 			} else {
 				m.BodyLen = sizes[e.Int(len(sizes))]
 				m.Chunked = e.Chance(35)
-				m.Read = Pick(e, "all", "none", "none", "1", "100", "8192", "postbody", "all", "reset", "resetbody", "setbody")
+				m.Read = Pick(e, "all", "none", "none", "1", "100", "8192", "postbody", "all", "reset", "resetbody", "setbody", "100+close", "1+close+close", "100+close+setbody", "8192+close+reset")
 				m.Resp = Pick(e, "", "", "", "", "", "timeout", "timeout-resp")
 				if p.Hook != "none" && e.Chance(60) {
 					m.Expect = true
@@ -196,11 +196,23 @@ func scenC02(e *Env) func() {
 					got, full = append([]byte(nil), ctx.PostBody()...), true
 				}
 			default:
-				n, _ := strconv.Atoi(mode)
+				// "<n>[+close[+close|+setbody|+reset]]": read n bytes, then let go of the stream in one or two steps
+				parts := strings.Split(mode, "+")
+				n, _ := strconv.Atoi(parts[0])
 				if ctx.Request.IsBodyStream() {
 					buf := make([]byte, n)
 					m, _ := io.ReadFull(ctx.RequestBodyStream(), buf)
 					got = buf[:m]
+					for _, step := range parts[1:] {
+						switch step {
+						case "close":
+							ctx.Request.CloseBodyStream()
+						case "setbody":
+							ctx.Request.SetBodyString("replaced")
+						case "reset":
+							ctx.Request.ResetBody()
+						}
+					}
 				} else {
 					got, full = append([]byte(nil), ctx.PostBody()...), true
 				}
